@@ -283,7 +283,7 @@ def well_posed(case):
 
 
 def plan(tier, seed, n):
-    per = 150 if tier == 'quick' else 5000
+    per = 400 if tier == 'quick' else 15000
     return [{'n': per} for _ in range(n)]
 
 
